@@ -18,6 +18,21 @@ pub fn main(args: &[String]) -> i32 {
             println!("{} {}", hex(&sk.to_bytes()), hex(&pk.to_bytes()));
             0
         }
+        // child keygen-after <n> <seedhex> <other n>  ->  generate a key of the other variant first
+        Some("keygen-after") if args.len() == 4 => {
+            let n: usize = args[1].parse().unwrap_or(0);
+            let other: usize = args[3].parse().unwrap_or(0);
+            let seed = match unhex(&args[2]) {
+                Ok(s) if s.len() == 32 && (n == 512 || n == 1024) && (other == 512 || other == 1024) => s,
+                _ => return 2,
+            };
+            let _ = api::keygen(other, [0x5au8; 32]);
+            let mut s = [0u8; 32];
+            s.copy_from_slice(&seed);
+            let (sk, pk) = api::keygen(n, s);
+            println!("{} {}", hex(&sk.to_bytes()), hex(&pk.to_bytes()));
+            0
+        }
         // child salts <n> <seedhex> <msghex> <count>  ->  one signature (hex) per line
         Some("salts") if args.len() == 5 => {
             let n: usize = args[1].parse().unwrap_or(0);
